@@ -508,6 +508,8 @@ def apply(ex, ctx, st, f, args, dest_ty, term):
         return mk_cast(a, to), st
     if dpath == 'core::convert::From::from' and path == '<T as core::convert::From<T>>::from':
         return args[0], st
+    if path == 'core::convert::identity':
+        return args[0], st
     if dpath == 'core::convert::Into::into' and path == '<T as core::convert::Into<U>>::into':
         targs = [pdb.tys(t) for t in f.get('resolved_targs') or f.get('targs') or []]
         if len(targs) >= 2 and targs[0] != targs[1]:
@@ -1056,7 +1058,30 @@ def apply(ex, ctx, st, f, args, dest_ty, term):
             res = mk_ite(r, option_some(x), res)
         return res, st
     if dpath in ('core::iter::Iterator::min_by_key', 'core::iter::Iterator::max_by_key'):
-        items, st = iter_items(ex, ctx, st, args[0])
+        citems, st = iter_items_cond(ex, ctx, st, args[0])
+        if any(c is not TRUE for c, _ in citems):
+            # items that may be absent (after `filter`): library contract — the first (min) / last (max) element whose
+            # key is extremal among the elements present
+            keys = []
+            for c, x in citems:
+                rx = ex.new_tmp(st, x)
+                kx, st = call_closure(ex, ctx, st, args[1], [rx])
+                keys.append(kx)
+            ty = ty_of(keys[0]) if keys else None
+            if ty not in INT_BITS:
+                raise Uncertified("min_by_key with non-integer key")
+            present, best, bk = FALSE, UNDEF, UNDEF
+            for (c, x), kx in zip(citems, keys):
+                better = mk_bin('Lt', kx, bk, ty, 'bool') if name == 'min_by_key' else mk_bin('Ge', kx, bk, ty, 'bool')
+                take = mk_and(c, mk_or(mk_not(present), better)) if bk is not UNDEF else c
+                best = x if best is UNDEF else mk_ite(take, x, best)
+                bk = kx if bk is UNDEF else mk_ite(take, kx, bk)
+                present = mk_or(present, c)
+            res_ = mk_ite(present, option_some(best), OPTION_NONE)
+            ex.reductions.append({'caller': key, 'kind': name, 'items': [x for _, x in citems], 'conds': [c for c, _ in citems],
+                                  'keys': keys, 'result': res_, 'closure': args[1], 'init': None, 'ctx': dict(ctx)})
+            return res_, st
+        items = [x for _, x in citems]
         if not items:
             return OPTION_NONE, st
         keys = []
@@ -1257,7 +1282,16 @@ def comparator_direction(ex, ctx, st, clos, ety, by_key=False):
     from .sym import atom
     from .evals import evaluate
     if by_key:
-        raise Uncertified("sort_by_key comparator")
+        a = atom('$key_a', ety)
+        ra = ex.new_tmp(st, a)
+        kv, st = call_closure(ex, ctx, st, clos, [ra])
+        while kv[0] == 'ref':
+            kv = ex.load(st, kv)
+        if kv is a:
+            return 'asc', st
+        if kv[0] == 'agg' and kv[1][0] == 'adt' and kv[1][1] == 'core::cmp::Reverse' and kv[2][0] is a:
+            return 'desc', st
+        raise Uncertified("sort_by_key with a computed key (only the word itself or Reverse(word) is a known total order on words)")
     a = atom('$cmp_a', ety)
     b = atom('$cmp_b', ety)
     ra = ex.new_tmp(st, a)
